@@ -22,6 +22,7 @@
     * `C17_step_no_panic`, `C17_run_no_panic`: the summary over all events of the model, and over sequences of them.
 -/
 import CachedProofs.Lemmas.Upsert
+import CachedProofs.Properties.G17
 
 namespace Cached
 
